@@ -114,11 +114,12 @@ func respCheck(prop string, o *Outcome) []Violation {
 				// legal iff the client sent validators that match the reply's
 				inm, ims := reqHeaderGet(r.ReqHeader, "If-None-Match"), reqHeaderGet(r.ReqHeader, "If-Modified-Since")
 				et, lm := u.Call.header.Get("ETag"), u.Call.header.Get("Last-Modified")
-				if (inm != "" && et != "" && (inm == et || inm == "*")) || (inm == "" && ims != "" && lm != "") {
+				// (and the answer it stands for is a 2xx one: preconditions do not apply to others)
+				if wantStatus/100 == 2 && ((inm != "" && et != "" && (inm == et || inm == "*")) || (inm == "" && ims != "" && lm != "")) {
 					is304 = true
 				} else {
 					out = append(out, violation(prop, "wrong-status", "status differs from the origin's",
-						"client op %d %s: got 304 but sent no matching validator (origin reply #%d had status %d)", r.Op, r.Key, u.Serial, wantStatus))
+						"client op %d %s: got 304 but sent no validator matching a 2xx answer (origin reply #%d had status %d)", r.Op, r.Key, u.Serial, wantStatus))
 					continue
 				}
 			} else if res.Status != wantStatus {
